@@ -2,7 +2,7 @@
    copy_samples (header already parsed).  The whole-file versions are in
    ProofsFile.v. *)
 From Coq Require Import ZArith List Bool Lia.
-From Verif Require Import lib.C12_Py lib.C12_ZList gen.Sphere C12.Model C12.ProofsBytes C12.ProofsG711 C12.ProofsLoop.
+From Verif Require Import lib.C12_Py lib.C12_ZList gen.Sphere C12.Model C12.Spec C12.ProofsBytes C12.ProofsG711 C12.ProofsLoop.
 Import ListNotations.
 Open Scope Z_scope.
 
@@ -49,15 +49,6 @@ Proof. vm_compute. repeat split. Qed.
 
 (* ---- copy_samples in terms of its specification *)
 
-Definition decoded_outcome (P : params) (d : bytes) : outcome :=
-  let n := nframes P d in
-  match convert_items P (decoded_prefix P d n) with
-  | Some vals =>
-      Decoded (negb (n =? p_count P)) (p_dtype P)
-              (if p_chans P >? 1 then [n; p_chans P] else [n])
-              (map Some (map (cast (p_dtype P)) vals))
-  | None => Error EIndex
-  end.
 
 Lemma finish_copy_spec P d : wf_params P -> finish_copy P (loop_spec P d) = decoded_outcome P d.
 Proof.
@@ -139,8 +130,6 @@ Proof.
   unfold nthz. rewrite (nth_error_nth' tbl 0) by lia. reflexivity.
 Qed.
 
-Definition expand (c : coding) (v : Z) : Z :=
-  match c with Pcm => v | Ulaw => ulaw_expand v | Alaw => alaw_expand v end.
 
 Lemma convert_law P l :
   p_convert P = true -> p_coding P <> Pcm -> Forall (fun b => 0 <= b < 256) l ->
@@ -159,7 +148,6 @@ Proof. intros H. unfold convert_items. now rewrite H. Qed.
 
 (* ---- shapes *)
 
-Definition shape_of (n chans : Z) : list Z := if chans >? 1 then [n; chans] else [n].
 
 (* ================================================================== *)
 (** * The clauses, for a parsed header [h] and any delivery of the data as reads *)
